@@ -4,7 +4,7 @@ package h2
 
 // C10: HTTP/2 stream fidelity through the relay.
 //
-//vf:assume C10: header blocks are a fixed valid HPACK block (indexed and literal fields) decoded by the real hpack decoder; frame flags, priority fields, promised ids, error codes, ping/goaway/settings payloads and the points at which the sender splits the block are symbolic
+//vf:assume C10: header blocks are a fixed valid HPACK block (indexed and literal fields), in the single-frame case optionally preceded by a dynamic-table size update (0 / 4096 / 8192), decoded by the real hpack decoder; frame flags, priority fields, promised ids, error codes, ping/goaway/settings payloads and the points at which the sender splits the block are symbolic
 //vf:assume C10: frames are produced and parsed by the real x/net/http2 Framer (interpreted); HPACK re-encoding and the writer goroutine are outside
 
 import (
@@ -86,7 +86,7 @@ func vfSameHeaders(a, b []hpack.HeaderField) bool {
 	return true
 }
 
-//vf:harness property=C10 nopanic reach=cont-single,cont-continued,cont-push
+//vf:harness property=C10 nopanic reach=cont-single,cont-continued,cont-push,cont-table-size-above-default
 func vfH_C10_cont() {
 	var dOut, pOut bytes.Buffer
 	rec := &vfRecorder{}
@@ -100,17 +100,31 @@ func vfH_C10_cont() {
 		maxCont = 4 // up to three CONTINUATION frames
 	}
 	nCont := vfrt.Choice("continuations", maxCont)
+	// the sender may announce a dynamic-table size change in front of the block (after its peer raised
+	// SETTINGS_HEADER_TABLE_SIZE): to 0, to the default 4096, or beyond it (8192)
+	block := vfBlock
+	if nCont == 0 {
+		switch vfrt.Choice("table-size-update", 4) {
+		case 1:
+			block = append([]byte{0x20}, vfBlock...)
+		case 2:
+			block = append([]byte{0x3f, 0xe1, 0x1f}, vfBlock...)
+		case 3:
+			vfrt.Reach("cont-table-size-above-default")
+			block = append([]byte{0x3f, 0xe1, 0x3f}, vfBlock...)
+		}
+	}
 	// split points chosen by the sender
-	c1, c2 := len(vfBlock), len(vfBlock)
+	c1, c2 := len(block), len(block)
 	if nCont >= 1 {
-		c1 = vfrt.Choice("cut1", len(vfBlock)+1)
+		c1 = vfrt.Choice("cut1", len(block)+1)
 	}
 	if nCont >= 2 {
-		c2 = c1 + vfrt.Choice("cut2", len(vfBlock)-c1+1)
+		c2 = c1 + vfrt.Choice("cut2", len(block)-c1+1)
 	}
-	c3 := len(vfBlock)
+	c3 := len(block)
 	if nCont >= 3 {
-		c3 = c2 + vfrt.Choice("cut3", len(vfBlock)-c2+1)
+		c3 = c2 + vfrt.Choice("cut3", len(block)-c2+1)
 	}
 	endStream := vfrt.Bool("end-stream")
 	withPrio := vfrt.Bool("has-priority")
@@ -124,7 +138,7 @@ func vfH_C10_cont() {
 		flags |= 0x04 // END_HEADERS
 	}
 	if push {
-		payload := append(append([]byte{}, promised...), vfBlock[:c1]...)
+		payload := append(append([]byte{}, promised...), block[:c1]...)
 		raw = vfFrame(5, flags, 1, payload)
 	} else {
 		if endStream {
@@ -135,7 +149,7 @@ func vfH_C10_cont() {
 			flags |= 0x20
 			payload = append(payload, prio...)
 		}
-		payload = append(payload, vfBlock[:c1]...)
+		payload = append(payload, block[:c1]...)
 		raw = vfFrame(1, flags, 1, payload)
 	}
 	if nCont >= 1 {
@@ -143,14 +157,14 @@ func vfH_C10_cont() {
 		if nCont == 1 {
 			f = 0x04
 		}
-		raw = append(raw, vfFrame(9, f, 1, vfBlock[c1:c2])...)
+		raw = append(raw, vfFrame(9, f, 1, block[c1:c2])...)
 	}
 	if nCont == 2 {
-		raw = append(raw, vfFrame(9, 0x04, 1, vfBlock[c2:])...)
+		raw = append(raw, vfFrame(9, 0x04, 1, block[c2:])...)
 	}
 	if nCont >= 3 {
-		raw = append(raw, vfFrame(9, 0, 1, vfBlock[c2:c3])...)
-		raw = append(raw, vfFrame(9, 0x04, 1, vfBlock[c3:])...)
+		raw = append(raw, vfFrame(9, 0, 1, block[c2:c3])...)
+		raw = append(raw, vfFrame(9, 0x04, 1, block[c3:])...)
 	}
 	fr := http2.NewFramer(nil, bytes.NewReader(raw))
 	for i := 0; i <= nCont; i++ {
